@@ -56,6 +56,8 @@ pub struct Stats {
     pub lines: u64,
     pub samples: Vec<serde_json::Value>,
     pub inconclusive: u64,
+    pub failover_clusters: u64,
+    pub failovers_not_clean: u64,
 }
 
 fn is_protocol_line(l: &str) -> bool {
@@ -66,7 +68,7 @@ fn is_protocol_line(l: &str) -> bool {
     Request::parse(t).is_ok()
 }
 
-pub fn run_cluster(n: usize, seed0: u64, order: &[usize], v: &Verdicts, st: &Mutex<Stats>) {
+pub fn run_cluster(n: usize, seed0: u64, order: &[usize], failover: bool, v: &Verdicts, st: &Mutex<Stats>) {
     let Some(mut c) = form_cluster(n, seed0, "c14") else {
         st.lock().unwrap().inconclusive += 1;
         v.inconclusive("cluster formation failed");
@@ -101,18 +103,39 @@ pub fn run_cluster(n: usize, seed0: u64, order: &[usize], v: &Verdicts, st: &Mut
         let d = c.dataset(0);
         d.iter().filter(|(n, _)| n.starts_with("a ")).flat_map(|(_, keys)| keys.iter().filter(|(k, _)| k.starts_with("$conflicts_conf_")).map(|(k, _)| format!("resolve {} ", k.rsplit('_').next().unwrap_or("0")))).collect::<Vec<_>>()
     }).find(|l| l.starts_with("resolve ")).map(|l| l.split(' ').nth(1).unwrap_or("0").to_string()).unwrap_or("0".into());
-    for i in 0..n {
+    // optionally the measurements are taken after the primary died and the survivors elected a new one: the roles
+    // every link was opened with are then no longer the roles of the nodes at its ends
+    let (alive, primary): (Vec<usize>, usize) = if failover {
+        c.kill_node(0);
+        let q = c.run_until_quiet();
+        let roles = c.roles();
+        let prim: Vec<usize> = (1..n).filter(|i| roles[*i].as_deref() == Some("Primary")).collect();
+        let secs = (1..n).filter(|i| roles[*i].as_deref() == Some("Secoundary")).count();
+        if !matches!(q, Outcome::Quiet(_)) || prim.len() != 1 || secs != n - 2 || !c.panics().is_empty() {
+            // the fail-over itself is C07's subject; a cluster that did not settle cleanly is not measured here
+            st.lock().unwrap().failovers_not_clean += 1;
+            c.shutdown();
+            return;
+        }
+        ((1..n).collect(), prim[0])
+    } else {
+        ((0..n).collect(), 0)
+    };
+    for &i in &alive {
         let name = format!("s{}", i);
         c.open_session(&name, i);
         c.call(&name, "auth admin pwd");
     }
     let _ = c.run_until_quiet();
     st.lock().unwrap().clusters += 1;
-    let s_count = (n - 1) as u64;
+    if failover {
+        st.lock().unwrap().failover_clusters += 1;
+    }
+    let s_count = (alive.len() - 1) as u64;
     let mut uniq = seed0 % 1000 * 1000;
     for &oi in order {
         let ci = oi % cmds.len();
-        let node = (oi / cmds.len()) % n;
+        let node = alive[(oi / cmds.len()) % alive.len()];
         let (name, tmpl, db, changes) = cmds[ci];
         uniq += 1;
         let sname = format!("s{}", node);
@@ -124,8 +147,8 @@ pub fn run_cluster(n: usize, seed0: u64, order: &[usize], v: &Verdicts, st: &Mut
         let out = c.run_until_quiet();
         let log = c.link_log();
         let burst: Vec<&(u64, usize, usize, String)> = log[before..].iter().filter(|l| is_protocol_line(&l.3)).collect();
-        let role = if node == 0 { "primary" } else { "secondary" };
-        let cell = format!("{}@{}/n{}", name, role, n);
+        let role = if node == primary { "primary" } else { "secondary" };
+        let cell = format!("{}@{}/n{}{}", name, role, n, if failover { "/after-failover" } else { "" });
         let reply = c.replies(&sname).last().map(|r| r.1.clone()).unwrap_or_default();
         let mut problem: Option<(String, String)> = None;
         match out {
@@ -143,7 +166,7 @@ pub fn run_cluster(n: usize, seed0: u64, order: &[usize], v: &Verdicts, st: &Mut
             // (a refused write may still have been forwarded once); operations that legitimately produce
             // several replicated changes get that burst per change
             let allowed = changes.max(1) * (1 + 2 * s_count);
-            let fanout = burst.iter().find(|l| l.1 != 0 && l.2 != 0 && l.1 != l.2 && l.3.starts_with("rp "));
+            let fanout = burst.iter().find(|l| l.1 != primary && l.2 != primary && l.1 != l.2 && l.3.starts_with("rp "));
             if let Some(f) = fanout {
                 problem = Some(("secondary-fans-out-to-another-node".into(), format!("n{}->n{} {}", f.1, f.2, f.3)));
             } else if burst.len() as u64 > allowed {
@@ -164,8 +187,10 @@ pub fn run_cluster(n: usize, seed0: u64, order: &[usize], v: &Verdicts, st: &Mut
             }
         }
         if let Some((p, detail)) = problem {
+            // the cluster's past (formed fresh / after a fail-over) is part of the replay, not of the signature: a command that
+            // exceeds the bound at a role does so through the same code in both
             let sig = json!({"check": "burst", "command": name, "issued_at": role, "problem": p});
-            let known = v.report(sig, json!({"nodes": n, "seed": seed0, "command": line, "reply": reply, "detail": detail,
+            let known = v.report(sig, json!({"nodes": n, "seed": seed0, "measured_after_failover": failover, "command": line, "reply": reply, "detail": detail,
                 "burst_head": burst.iter().take(40).map(|l| format!("[{}] n{}->n{} {}", l.0, l.1, l.2, l.3)).collect::<Vec<_>>(), "burst_lines": burst.len()}));
             let _ = known;
             if p.starts_with("no-quiescence") || p.starts_with("service") {
@@ -184,7 +209,7 @@ pub fn run(tier: &str) -> i32 {
     let thorough = tier == "thorough";
     let v = Verdicts::load("C14");
     let mut ev = Evidence::new("C14", tier, "exploration");
-    let st = Mutex::new(Stats { ops: 0, clusters: 0, cells: BTreeSet::new(), max_lines: BTreeMap::new(), lines: 0, samples: vec![], inconclusive: 0 });
+    let st = Mutex::new(Stats { ops: 0, clusters: 0, cells: BTreeSet::new(), max_lines: BTreeMap::new(), lines: 0, samples: vec![], inconclusive: 0, failover_clusters: 0, failovers_not_clean: 0 });
     let ncmd = commands().len();
     let n_clusters = if thorough { 600 } else { 48 };
     let next = std::sync::atomic::AtomicUsize::new(0);
@@ -198,6 +223,7 @@ pub fn run(tier: &str) -> i32 {
                 }
                 let mut r = Rng::new(seed().wrapping_mul(5_000_011).wrapping_add(i as u64));
                 let n = 2 + (i % 2);
+                let failover = i % 4 == 3;
                 // every (command, node) cell once, in a seeded order; the resolve goes last (it is expected to upset the cluster)
                 let mut order: Vec<usize> = (0..ncmd * n).collect();
                 for k in (1..order.len()).rev() {
@@ -205,17 +231,19 @@ pub fn run(tier: &str) -> i32 {
                 }
                 let resolve_idx = commands().iter().position(|c| c.0 == "resolve").unwrap();
                 order.sort_by_key(|o| (o % ncmd == resolve_idx) as u8);
-                run_cluster(n, r.next(), &order, v, st);
+                run_cluster(n, r.next(), &order, failover, v, st);
             });
         }
     });
     let s = st.into_inner().unwrap();
     ev.evaluations = s.ops;
     ev.distinct_nontrivial = s.cells.len() as u64;
-    ev.rule = format!("{} simulated clusters (2 and 3 nodes, formed through the real join path); on each, every one of {} client-visible commands (reads, set / set-safe accepted and stale, remove, increment, create-user, set-permissions, snapshot, create-db, arbiter registration, a conflicting versioned write on an arbiter database, resolve, unknown word) is issued once on every node in a seeded order, one at a time to quiescence under seeded FIFO delivery orders; protocol lines = lines the receiver parses to a request (status replies 'ok'/'error ...' are not counted); distinct_nontrivial = distinct (command, issuing role, cluster size) cells measured", n_clusters, ncmd);
+    ev.rule = format!("{} simulated clusters (2 and 3 nodes, formed through the real join path; every fourth one is a 3-node cluster measured after its primary was killed and the survivors elected a new one); on each, every one of {} client-visible commands (reads, set / set-safe accepted and stale, remove, increment, create-user, set-permissions, snapshot, create-db, arbiter registration, a conflicting versioned write on an arbiter database, resolve, unknown word) is issued once on every node in a seeded order, one at a time to quiescence under seeded FIFO delivery orders; protocol lines = lines the receiver parses to a request (status replies 'ok'/'error ...' are not counted); distinct_nontrivial = distinct (command, issuing role, cluster size) cells measured", n_clusters, ncmd);
     ev.samples = s.samples.clone();
     ev.set("protocol_lines_counted", json!(s.lines));
     ev.set("clusters", json!(s.clusters));
+    ev.set("clusters_measured_after_a_failover", json!(s.failover_clusters));
+    ev.set("failovers_that_did_not_settle_cleanly_and_were_not_measured", json!(s.failovers_not_clean));
     ev.set("max_protocol_lines_per_cell", json!(s.max_lines));
     ev.set("inconclusive_runs", json!(s.inconclusive));
     ev.set("known_findings_seen", json!(v.known_seen()));
